@@ -888,7 +888,14 @@ def unroll_circuit_op_greedy_earliest(
             )
         if tags_to_check is None or set(tags_to_check).intersection(op.tags):
             batch_remove.append((i, op))
-            batch_insert.append((i, op_untagged.mapped_circuit().all_operations()))
+            mapped_circuit = op_untagged.mapped_circuit()
+            if protocols.measurement_keys_touched(mapped_circuit):
+                # Operations that record or read classical data must keep their relative order
+                # (also with respect to later operations reading the same keys), which qubit
+                # based greedy insertion does not know about: insert the moments intact.
+                batch_insert.append((i, mapped_circuit.moments))
+            else:
+                batch_insert.append((i, mapped_circuit.all_operations()))
         elif deep:
             batch_replace.append((i, op, op_untagged.with_tags(*op.tags)))
     unrolled_circuit = circuit.unfreeze(copy=True)
@@ -939,9 +946,21 @@ def unroll_circuit_op_greedy_frontier(
                 )
             if tags_to_check is None or set(tags_to_check).intersection(op.tags):
                 unrolled_circuit.clear_operations_touching(op.qubits, [idx])
-                frontier = unrolled_circuit.insert_at_frontier(
-                    op_untagged.mapped_circuit().all_operations(), idx, frontier
-                )
+                mapped_circuit = op_untagged.mapped_circuit()
+                if protocols.measurement_keys_touched(mapped_circuit):
+                    # Operations that record or read classical data must keep their relative
+                    # order (also with respect to later operations reading the same keys), which
+                    # the qubit frontier does not know about: insert the moments intact.
+                    unrolled_circuit.insert(idx + 1, mapped_circuit.moments)
+                    for q in list(frontier):
+                        if frontier[q] > idx:
+                            frontier[q] += len(mapped_circuit)
+                    for q in op.qubits:
+                        frontier[q] = idx + 1 + len(mapped_circuit)
+                else:
+                    frontier = unrolled_circuit.insert_at_frontier(
+                        mapped_circuit.all_operations(), idx, frontier
+                    )
             elif deep:
                 unrolled_circuit.batch_replace([(idx, op, op_untagged.with_tags(*op.tags))])
         idx += 1
